@@ -85,8 +85,8 @@ class Check:
         for pf in prop_files:
             path = os.path.join(COQ, pf)
             src = open(path).read()
-            names = re.findall(r"^(?:Theorem|Corollary|Lemma)\s+(\w+)", src, flags=re.M)
-            examples = re.findall(r"^Example\s+(\w+)", src, flags=re.M)
+            names = re.findall(r"^\s*(?:Theorem|Corollary|Lemma)\s+(\w+)", src, flags=re.M)
+            examples = re.findall(r"^\s*Example\s+(\w+)", src, flags=re.M)
             rc, out = sh("timeout 900 coqc -R . RT %s" % pf, cwd=COQ, timeout=1000)
             cmds.append("coqc -R . RT %s" % pf)
             closed = out.count("Closed under the global context")
